@@ -949,6 +949,76 @@ def _inside_try(stmts, node: ast.AST) -> bool:
     return False
 
 
+def _split_live_ranges(tree: ast.AST):
+    """a plain local bound by several `name = value` statements whose live ranges are disjoint (every read of the name lies after exactly one of
+    those statements, in the same block or nested in it, and none of the statements lies in the range of another) is several variables
+    sharing a name: each range gets its own name.  Pure renaming; afterwards each of them is bound once, which the other rewritings and the
+    rules' def-use lookups rely on."""
+    for fn in [n for n in ast.walk(tree) if isinstance(n, (ast.FunctionDef, ast.AsyncFunctionDef))]:
+        a_ = fn.args
+        params = {x.arg for x in a_.args + a_.kwonlyargs + a_.posonlyargs} | ({a_.vararg.arg} if a_.vararg else set()) | ({a_.kwarg.arg} if a_.kwarg else set())
+        nested = set()
+        for n in ast.walk(fn):
+            if n is not fn and isinstance(n, (ast.FunctionDef, ast.AsyncFunctionDef, ast.Lambda, ast.ClassDef)):
+                nested |= _names_in(n)
+        store_nodes: Dict[str, List[ast.Name]] = {}
+        for n in ast.walk(fn):
+            if isinstance(n, ast.Name) and isinstance(n.ctx, (ast.Store, ast.Del)):
+                store_nodes.setdefault(n.id, []).append(n)
+        declared = {nm for n in ast.walk(fn) if isinstance(n, (ast.Global, ast.Nonlocal)) for nm in n.names}
+        for name, snodes in sorted(store_nodes.items()):
+            if len(snodes) < 2 or name in params or name in nested or name in declared:
+                continue
+            # every binding must be a plain top-of-statement assignment `name = value`
+            sites = []          # (block list, index, statement)
+            for node in ast.walk(fn):
+                for fld in ("body", "orelse", "finalbody"):
+                    blk = getattr(node, fld, None)
+                    if isinstance(blk, list) and blk and isinstance(blk[0], ast.stmt):
+                        for k, st in enumerate(blk):
+                            if isinstance(st, ast.Assign) and len(st.targets) == 1 and isinstance(st.targets[0], ast.Name) and st.targets[0].id == name \
+                                    and getattr(st, "ann", None) is None:
+                                sites.append((blk, k, st))
+                for h in getattr(node, "handlers", []) or []:
+                    for k, st in enumerate(h.body):
+                        if isinstance(st, ast.Assign) and len(st.targets) == 1 and isinstance(st.targets[0], ast.Name) and st.targets[0].id == name:
+                            sites.append((h.body, k, st))
+            if len(sites) != len(snodes):
+                continue
+            regions = []
+            for blk, k, st in sites:
+                ids = {id(x) for s in blk[k + 1:] for x in ast.walk(s)}
+                regions.append(ids)
+            # disjoint: no binding statement lies inside another binding's region, and a binding's own value must not read the name
+            bad = False
+            for i, (blk, k, st) in enumerate(sites):
+                if any(isinstance(x, ast.Name) and x.id == name for x in ast.walk(st.value)):
+                    bad = True
+                for j, reg in enumerate(regions):
+                    if i != j and id(st) in reg:
+                        bad = True
+            if bad:
+                continue
+            loads = [n for n in ast.walk(fn) if isinstance(n, ast.Name) and n.id == name and isinstance(n.ctx, ast.Load)]
+            owner = {}
+            for ld in loads:
+                own = [i for i, reg in enumerate(regions) if id(ld) in reg]
+                if len(own) != 1:
+                    bad = True
+                    break
+                owner[id(ld)] = own[0]
+            if bad:
+                continue
+            for i, (blk, k, st) in enumerate(sites):
+                if i == 0:
+                    continue
+                new = f"{name}__r{i + 1}"
+                st.targets[0].id = new
+                for ld in loads:
+                    if owner[id(ld)] == i:
+                        ld.id = new
+
+
 def _propagate_field_reads(tree: ast.AST, computed: Set[str] = frozenset()):
     """`a = b.f.g` (a plain local bound once; b a name that is not rebound while a is live; no store to an attribute f / g anywhere in the
     function): every later read of a in the same block (or nested in it) is the field read itself, so a is replaced and the assignment dropped."""
@@ -1536,6 +1606,7 @@ def normalise_tree(tree: ast.AST, computed: Set[str] = frozenset(), records: Opt
     _simplify_not(tree)
     _canonical_comparisons(tree)
     _canonical_statements(tree)
+    _split_live_ranges(tree)
     _eliminate_aliases(tree)
     if os.environ.get("PGSTAT_NO_TEMP_INLINE") != "1":
         _propagate_field_reads(tree, computed)      # `computed`: names of properties (their reads run code: never duplicated)
